@@ -14,29 +14,44 @@ CONFIG = {
     "level_text": "Proof (all configurations, file systems, IRIs, recursion depths; lexical path semantics, symlinks excluded): "
                   "the full confinement statement holds for the code now in /repo (confined_current / confined_files: bytes "
                   "returned are the content of a file below the directory of a pair whose namespace prefixes the IRI), closed "
-                  "over the regenerated guard flag (guard_present fails if the guard disappears from /repo); the same for IRIs "
-                  "followed from loaded data (link_confined: get_neighbour) and remote JSON-LD contexts (ctx_confined); "
+                  "over the regenerated guard flag (guard_present fails if the guard disappears from /repo), in every reachable "
+                  "loader state (Default/new/add: reachable_cfgOk discharges the CfgOk hypothesis, cfgOk_necessary shows by "
+                  "witness that it is needed; confined_reachable); the same for IRIs followed from loaded data: link_confined "
+                  "(get_neighbour) and resource_reads_confined (model of Resource over an arbitrary graph: get_resource, "
+                  "get_any_resource, get_all_resources, pred_*, get_resource_items with the lazy-iterator effects; every read is "
+                  "confined w.r.t. an IRI occurring in the graph) and remote JSON-LD contexts (ctx_confined); the 'no symbolic "
+                  "links' assumption is exact (getCurL_no_links: the model with links restricted to link-free file systems IS "
+                  "the model, any path, fuel > PATH_MAX) and necessary (symlink_assumption_necessary, replayed on the real "
+                  "code by the y requests); "
                   "reads_only_in_get pins the regenerated list of file-system call sites of the crate to the one read in get; "
                   "the statement is REFUTED for the unguarded text by kernel-checked witnesses (ns+'../secret.ttl', "
                   "ns+'/abs/path'); confinement under the decidable side condition 'remainder has no .. component and does not "
                   "start with /' incl. the extension retry loop for any guard setting; percent-escapes are literal names; "
                   "depth-1 recursion = unbounded recursion. "
                   "Differential (not proof): model = real LocalLoader::get on every generated (configuration, IRI) over a sandbox; "
-                  "model getNeighbour = what Resource::{get_resource,get_any_resource,get_all_resources,get_resource_items,"
-                  "pred_resource} read for IRIs planted verbatim in N-Triples documents; links in Turtle documents and remote "
+                  "the driver parses the N-Triples link documents and runs the model's Resource entry points (get_term, "
+                  "get_resource incl. the multiple/no value errors, get_any_resource, get_all_resources, get_resource_items, "
+                  "pred_resource) against the real ones; loaders are built with new or Default+add on both sides; the model "
+                  "with symbolic links predicts the 11 symlink probes (what is read, from where); links in Turtle documents and remote "
                   "JSON-LD contexts (string/array/@import/scoped) are checked against the oracle and against get on the same IRI.",
     "level_note": "Trusted: the abstract file system (open walks components, ENOENT/ENOTDIR/EISDIR/ENAMETOOLONG, no symlinks, no "
                   "permissions) and PathBuf::join unix semantics as transcribed in Model/Loader.lean, both exercised by the "
                   "differential on ext4; tools/extractors/c19.py. Invalid IRIs (backslash, space) hit debug assertions of "
                   "Iri::new_unchecked inside get on its error paths: only their successful reads are compared. Which IRIs the "
-                  "JSON-LD processor requests for a context reference is observed (recording wrapper), not modelled. Symbolic "
-                  "links are exercised (y requests) and reported, not judged, except links that stay inside the directory. "
+                  "JSON-LD processor requests for a context reference is observed (recording wrapper), not modelled; so are the "
+                  "Turtle/JSON-LD/RDF-XML parsers (what graph a document yields). Symbolic links are outside the property: the "
+                  "y requests compare the model with links to the OS and report escapes through links without judging them, "
+                  "except links that stay inside the directory. PathBuf::join, Path::components and the kernel's path walk are "
+                  "hand transcriptions tied by the differential only. "
                   "Fixed finding (3c4bf6e): two escape mechanisms ('..' component, absolute remainder).",
     "tables": ["loader_exts", "loader_sites"],
     "lean_targets": ["SophiaProofs.Props.C19", "SophiaProofs.Audit.C19"],
     "theorems": ["read_reads_resolved", "new_ok_cfg", "getG_opened", "confined_partial", "retry_confined",
                  "confined_repaired", "confined_of_guard", "guard_present", "confined_current", "current_status",
-                 "unguarded_refuted", "confined_files", "link_confined", "ctx_confined", "reads_only_in_get",
+                 "unguarded_refuted", "confined_files", "check_ok", "reachable_cfgOk", "cfgOk_necessary",
+                 "confined_reachable", "link_confined", "ctx_confined", "neighbour_confined", "performed_subset",
+                 "resource_reads_confined", "getStepR_osRead", "walkL_no_links", "osReadL_no_links",
+                 "getCurL_no_links", "symlink_assumption_necessary", "reads_only_in_get",
                  "escape_dotdot", "escape_absolute", "escape_retry",
                  "confined_refuted", "repaired_rejects_witnesses", "pct_not_decoded", "fuel_irrelevant"],
     "native_ok": [],
